@@ -48,19 +48,20 @@ func (zeroChooser) Choose(string, int) int { return 0 }
 
 // Task is one schedulable goroutine.
 type Task struct {
-	ID    string // deterministic: parent id + "." + spawn index
-	Name  string // role label (spawn site or harness name)
-	goid  int64
-	wake  chan struct{}
-	site  string
-	low   bool // parked by Settle: runs only when nothing else is runnable
-	waitM *Mutex
-	waitR *RWMutex
-	waitW bool // with waitR: wants the write lock
-	waitF func() bool
-	nsp   int
-	sched *Sched
-	gone  bool
+	ID       string // deterministic: parent id + "." + spawn index
+	Name     string // role label (spawn site or harness name)
+	goid     int64
+	wake     chan struct{}
+	site     string
+	low      bool // parked by Settle: runs only when nothing else is runnable
+	waitM    *Mutex
+	waitR    *RWMutex
+	waitW    bool // with waitR: wants the write lock
+	wcounted bool // counted in waitR.wwait (it found the lock held)
+	waitF    func() bool
+	nsp      int
+	sched    *Sched
+	gone     bool
 	// Harness marks its own tasks so the leak census can ignore them.
 	Harness bool
 }
@@ -609,7 +610,10 @@ func (s *Sched) pick() *Task {
 	if t.waitR != nil {
 		if t.waitW {
 			t.waitR.writer = t
-			t.waitR.wwait--
+			if t.wcounted {
+				t.waitR.wwait--
+				t.wcounted = false
+			}
 		} else {
 			t.waitR.readers++
 		}
